@@ -417,3 +417,185 @@ Proof.
   exists rc, b. cbn [r_prov r_fee r_exp r_active rid_height fst snd].
   repeat split; try assumption.
 Qed.
+
+(* ------------------------------------------------------------------ *)
+(* Examples: the hypotheses of the theorems above hold on concrete reachable histories and
+   every branch (a)-(e) is taken; everything by computation.  [Reach cfg s] stands for
+   [Inv cfg s] (Proofs/InvAll.v Reach_Inv).
+   Service 1; providers 7 (price 10), 8 (price 60: above the cap 50), 9 (response time 30:
+   above the timeout 20), 10 (price 20, disabled), 11 (price 30), 12 (not bound). *)
+Module ExB.
+  Definition cfg : Params := mkParams 100 2 10 0 (ONE / 10) 0 0 77 99.
+  Definition raw (p : Z) : RawPricing := mkRaw (p * ONE) [] [].
+  Definition ops_common : list Op :=
+    [ ODefine 1 5 true;
+      OBind 1 7 (CBase 1000) (Some (raw 10)) 5 42 true;
+      OBind 1 8 (CBase 1000) (Some (raw 60)) 5 42 true;
+      OBind 1 9 (CBase 1000) (Some (raw 20)) 30 43 true;
+      OBind 1 10 (CBase 1000) (Some (raw 20)) 5 43 true;
+      OBind 1 11 (CBase 1000) (Some (raw 30)) 5 43 true;
+      ODisable 1 10 43 true ].
+  Definition c1 : CtxId := (1001, 0).   (* issued: E = [(7,10); (11,30)] *)
+  Definition c2 : CtxId := (1002, 0).   (* skipped: no eligible provider *)
+  Definition c3 : CtxId := (1003, 0).   (* paused: consumer 51 holds 5 < 40 *)
+  Definition c4 : CtxId := (1004, 0).   (* skipped: one eligible provider, threshold 2 *)
+  Definition c5 : CtxId := (1005, 0).   (* paused by the consumer before the batch *)
+  Definition c6 : CtxId := (1006, 0).   (* super mode: issued with fee 0, consumer 52 holds 0 *)
+  Definition c7 : CtxId := (1007, 0).   (* repeated, total lowered to the counter: removed *)
+  Definition ops_a : list Op := ops_common ++
+    [ OCall c1 1 [7; 8; 9; 10; 11; 12] 50 0 (CBase 50) 20 false false 0 0 true true;
+      OCall c2 1 [8; 9; 10; 12] 50 0 (CBase 50) 20 false false 0 0 true true;
+      OCall c3 1 [7; 11] 51 0 (CBase 50) 20 false false 0 0 true true;
+      OModCall c4 1 [7; 8] 50 0 (CBase 50) 20 false false 0 0 2 99 true;
+      OCall c5 1 [7; 11] 50 0 (CBase 50) 20 false true 30 3 true true;
+      OPause c5 50 true;
+      OCall c6 1 [7; 11] 52 0 (CBase 50) 20 true false 0 0 true true ].
+  Definition ops_b : list Op := ops_common ++
+    [ OCall c7 1 [7] 50 0 (CBase 50) 1 false true 3 3 true true;
+      OEndBlock 1; OEndBlock 1;
+      OUpdateCtx c7 50 [] CEmpty 0 0 1 true;
+      OEndBlock 1 ].
+  Definition funding : list (Z * Z) := [(42, 10000); (43, 10000); (50, 100); (51, 5)].
+  Definition s0 : State := init 1 0 funding.
+  Definition s_a : State := run cfg s0 ops_a.
+  Definition s_b : State := run cfg s0 ops_b.
+
+  Example wf_cfg_ex : wf_cfg cfg.
+  Proof. unfold wf_cfg. repeat match goal with |- _ /\ _ => split end; zc. Qed.
+
+  Example all_ok_a :
+    map (fun n => snd (step cfg (run cfg s0 (firstn n ops_a)) (nth n ops_a (OEndBlock 0)))) (seq 0 14)
+    = repeat ROk 14.
+  Proof. vm_compute. reflexivity. Qed.
+  Example all_ok_b :
+    map (fun n => snd (step cfg (run cfg s0 (firstn n ops_b)) (nth n ops_b (OEndBlock 0)))) (seq 0 12)
+    = repeat ROk 12.
+  Proof. vm_compute. reflexivity. Qed.
+
+  Example reach_a : Reach cfg s_a.
+  Proof.
+    apply reach_init_run; [lia|lia|unfold funding; wf_funding_tac|].
+    unfold ops_a, ops_common. cbn [app]. wf_run_tac.
+  Qed.
+  Example reach_b : Reach cfg s_b.
+  Proof.
+    apply reach_init_run; [lia|lia|unfold funding; wf_funding_tac|].
+    unfold ops_b, ops_common. cbn [app]. wf_run_tac.
+  Qed.
+
+  Definition hyps (s : State) (c : CtxId) : Prop :=
+    wf_cfg cfg /\ Reach cfg s /\ In (height s, c) (newq s) /\ height s < HEIGHT_BOUND.
+
+  Ltac hyps_tac Hreach :=
+    split; [exact wf_cfg_ex|]; split; [exact Hreach|]; split; [vm_compute; tauto|vm_compute; reflexivity].
+
+  Example eligible_spec_ex :
+    exists rc, get c1 (ctxs s_a) = Some rc
+      /\ map (eligible s_a rc) [7; 8; 9; 10; 11; 12] = [Some 10; None; None; None; Some 30; None]
+      /\ filter_providers s_a rc (c_provs rc) = [(7, 10); (11, 30)].
+  Proof. eexists. split; [vm_compute; reflexivity|]. vm_compute. auto. Qed.
+
+  (* (e) issued *)
+  Example C06_batch_spec_ex_issue :
+    hyps s_a c1
+    /\ exists rc, get c1 (ctxs s_a) = Some rc /\ c_state rc = Running /\ d5 rc = false
+         /\ filter_providers s_a rc (c_provs rc) = [(7, 10); (11, 30)] /\ c_thr rc = 0
+         /\ c_super rc = false /\ bal s_a (User 50) = 100
+         /\ reqs (new_one cfg s_a c1)
+            = [((c1, 1, 1, 0), mkReq 7 10 21 true); ((c1, 1, 1, 1), mkReq 11 30 21 true)]
+         /\ bal (new_one cfg s_a c1) (User 50) = 60 /\ bal (new_one cfg s_a c1) Escrow = 40
+         /\ get c1 (ctxs (new_one cfg s_a c1)) = Some (bump rc 2).
+  Proof.
+    split; [hyps_tac reach_a|]. eexists. split; [vm_compute; reflexivity|]. vm_compute. auto 12.
+  Qed.
+
+  (* (e) issued in super mode: fee 0, no debit *)
+  Example C06_batch_spec_ex_super :
+    hyps s_a c6
+    /\ exists rc, get c6 (ctxs s_a) = Some rc /\ c_state rc = Running /\ d5 rc = false
+         /\ filter_providers s_a rc (c_provs rc) = [(7, 10); (11, 30)]
+         /\ c_super rc = true /\ bal s_a (User 52) = 0
+         /\ reqs (new_one cfg s_a c6)
+            = [((c6, 1, 1, 0), mkReq 7 0 21 true); ((c6, 1, 1, 1), mkReq 11 0 21 true)]
+         /\ bank (new_one cfg s_a c6) = bank s_a.
+  Proof.
+    split; [hyps_tac reach_a|]. eexists. split; [vm_compute; reflexivity|]. vm_compute. auto 12.
+  Qed.
+
+  (* (c) skipped: nobody eligible / below the threshold *)
+  Example C06_batch_spec_ex_skip_empty :
+    hyps s_a c2
+    /\ exists rc, get c2 (ctxs s_a) = Some rc /\ c_state rc = Running /\ d5 rc = false
+         /\ filter_providers s_a rc (c_provs rc) = []
+         /\ reqs (new_one cfg s_a c2) = [] /\ bank (new_one cfg s_a c2) = bank s_a
+         /\ get c2 (ctxs (new_one cfg s_a c2)) = Some (bump rc 0)
+         /\ get c2 (expq_h (new_one cfg s_a c2)) = Some 21.
+  Proof.
+    split; [hyps_tac reach_a|]. eexists. split; [vm_compute; reflexivity|]. vm_compute. auto 12.
+  Qed.
+  Example C06_batch_spec_ex_skip_threshold :
+    hyps s_a c4
+    /\ exists rc, get c4 (ctxs s_a) = Some rc /\ c_state rc = Running /\ d5 rc = false
+         /\ filter_providers s_a rc (c_provs rc) = [(7, 10)] /\ c_thr rc = 2
+         /\ reqs (new_one cfg s_a c4) = [] /\ bank (new_one cfg s_a c4) = bank s_a
+         /\ get c4 (ctxs (new_one cfg s_a c4)) = Some (bump rc 0).
+  Proof.
+    split; [hyps_tac reach_a|]. eexists. split; [vm_compute; reflexivity|]. vm_compute. auto 12.
+  Qed.
+
+  (* (d) paused for funds *)
+  Example C06_batch_spec_ex_funds :
+    hyps s_a c3
+    /\ exists rc, get c3 (ctxs s_a) = Some rc /\ c_state rc = Running /\ d5 rc = false
+         /\ filter_providers s_a rc (c_provs rc) = [(7, 10); (11, 30)] /\ c_super rc = false
+         /\ bal s_a (User 51) = 5
+         /\ reqs (new_one cfg s_a c3) = [] /\ bank (new_one cfg s_a c3) = bank s_a
+         /\ get c3 (ctxs (new_one cfg s_a c3)) = Some (paused_ctx rc).
+  Proof.
+    split; [hyps_tac reach_a|]. eexists. split; [vm_compute; reflexivity|]. vm_compute. auto 12.
+  Qed.
+
+  (* (a) not running *)
+  Example C06_batch_spec_ex_not_running :
+    hyps s_a c5
+    /\ exists rc, get c5 (ctxs s_a) = Some rc /\ c_state rc = Paused
+         /\ reqs (new_one cfg s_a c5) = [] /\ bank (new_one cfg s_a c5) = bank s_a
+         /\ get c5 (ctxs (new_one cfg s_a c5)) = Some rc.
+  Proof.
+    split; [hyps_tac reach_a|]. eexists. split; [vm_compute; reflexivity|]. vm_compute. auto 12.
+  Qed.
+
+  (* (b) total reached *)
+  Example C06_batch_spec_ex_d5 :
+    hyps s_b c7
+    /\ exists rc, get c7 (ctxs s_b) = Some rc /\ d5 rc = true /\ c_counter rc = 1 /\ c_total rc = 1
+         /\ reqs (new_one cfg s_b c7) = [] /\ bank (new_one cfg s_b c7) = bank s_b
+         /\ get c7 (ctxs (new_one cfg s_b c7)) = None.
+  Proof.
+    split; [hyps_tac reach_b|]. eexists. split; [vm_compute; reflexivity|]. vm_compute. auto 12.
+  Qed.
+
+  (* the theorems applied to the example: their conclusions, computed *)
+  Example C06_new_request_ex :
+    hyps s_a c1 /\ get (c1, 1, 1, 1) (reqs s_a) = None
+    /\ get (c1, 1, 1, 1) (reqs (new_one cfg s_a c1)) = Some (mkReq 11 30 21 true).
+  Proof. split; [hyps_tac reach_a|]. vm_compute. auto. Qed.
+
+  Example C06_fee_le_cap_ex :
+    exists rc, get c1 (ctxs s_a) = Some rc /\ rid_ctx (c1, 1, 1, 1) = c1
+      /\ 0 <= r_fee (mkReq 11 30 21 true) <= c_cap rc.
+  Proof.
+    destruct C06_new_request_ex as ((H1 & H2 & H3 & H4) & H5 & H6).
+    exact (C06_fee_le_cap cfg s_a c1 _ _ H1 (Reach_Inv _ _ H1 H2) H3 H4 H5 H6).
+  Qed.
+
+  Example C06_provider_in_list_ex :
+    exists rc b, get c1 (ctxs s_a) = Some rc /\ In 11 (c_provs rc)
+      /\ get (c_svc rc, 11) (binds s_a) = Some b /\ b_avail b = true /\ b_qos b <= c_timeout rc.
+  Proof.
+    destruct C06_new_request_ex as ((H1 & H2 & H3 & H4) & H5 & H6).
+    destruct (C06_provider_in_list cfg s_a c1 _ _ H1 (Reach_Inv _ _ H1 H2) H3 H4 H5 H6)
+      as (rc & b & A1 & A2 & A3 & A4 & A5 & _).
+    exists rc, b. cbn [r_prov] in A2, A3. exact (conj A1 (conj A2 (conj A3 (conj A4 A5)))).
+  Qed.
+End ExB.
